@@ -271,6 +271,63 @@ transformations:
 """,
 }
 
+# pipelines whose items fail with a message that names the failing transformation / condition / detection item
+_TRACK = """name: %s
+priority: %d
+transformations:
+  - id: tr_map
+    type: field_name_mapping
+    mapping: {CommandLine: [cmd_a, cmd_b], fieldA: [a_one, a_two], fieldB: b, Image: img}
+  - id: tr_prefix
+    type: field_name_prefix
+    prefix: 'p.'
+  - id: tr_state
+    type: set_state
+    key: k
+    val: 5
+"""
+MSG_PIPELINES = {
+    "convert_type": _TRACK % ("convert type", 10) + """  - id: conv
+    type: convert_type
+    target_type: num
+""",
+    "convert_type_nested": _TRACK % ("convert type nested", 10) + """  - type: nest
+    items:
+      - type: field_name_mapping
+        mapping: {p.img: [i1, i2, i3]}
+      - id: conv_inner
+        type: convert_type
+        target_type: num
+        field_name_conditions:
+          - type: include_fields
+            fields: [p.cmd_a, p.b, i2]
+""",
+    "rule_attribute": _TRACK % ("rule attribute", 10) + """  - id: attr
+    type: set_state
+    key: k2
+    val: v
+    rule_conditions:
+      - type: rule_attribute
+        attribute: status
+        value: notanumber
+        op: gte
+""",
+    "state_op": _TRACK % ("state op", 10) + """  - id: st
+    type: set_state
+    key: k3
+    val: v
+    rule_conditions:
+      - type: processing_state
+        key: k
+        val: 3
+        op: badop
+""",
+    "values_twice": _TRACK % ("values twice", 10) + """  - {id: r1, type: replace_string, regex: t, replacement: u}
+  - {id: r2, type: replace_string, regex: u, replacement: w}
+  - {id: r3, type: case, method: upper}
+""",
+}
+
 VALIDATORS = {
     "all": {"validators": ["all"]},
     "some": {"validators": ["all", "-attacktag", "-d3_fendtag", "-tlptag", "-stptag"],
@@ -319,10 +376,19 @@ def build_corpus(tier, rng):
                      [P["one_to_many"], P["add_condition"]]))
     out.append(entry("filters-nested", allrules + "---\n" + FILTERS["f_multi"] + "---\n" + FILTERS["f_them"], [P["nested"]]))
     out.append(entry("filter-undefined", RULES["simple"] + "---\n" + FILTERS["f_undefined"]))
+    out.append(entry("filter-undefined-second-token", RULES["simple"] + "---\n" + filt("F undef 2", RID[:1], "selection: {u: 1}\ncondition: not selection and not other")))
+    out.append(entry("filter-undefined-separate", RULES["simple"], [P["add_condition"]],
+                     separate=[filt("F undef 3", RID[:1], "flt: {u: 1}\ncondition: not (flt or missing_one)")]))
     out.append(entry("filter-digit", RULES["simple"] + "---\n" + FILTERS["f_digit"], [P["add_condition"]]))
     out.append(entry("underscore-selector", RULES["underscore_sel"], [P["add_condition"]]))
     out.append(entry("underscore-selector-filter", RULES["underscore_sel"].replace("title:", "id: " + RID[0] + "\ntitle:", 1)
                      + "---\n" + FILTERS["f_simple"]))
+    M = MSG_PIPELINES
+    b64 = rule("Base64 value", "sel: {'fieldA|base64': test, 'fieldB|wide|base64offset|contains': tt}\ncondition: sel")
+    for k in M:
+        out.append(entry("msg-" + k, RULES["simple"] + "---\n" + RULES["multi_fields"] + "---\n" + RULES["regex_flags"] + "---\n" + b64, [M[k]]))
+    out.append(entry("msg-convert-type-stack", allrules + "---\n" + b64, [M["convert_type"], P["add_condition"], P["vars"]]))
+    out.append(entry("msg-to-dict-filters", b64 + "---\n" + RULES["simple"] + "---\n" + FILTERS["f_simple"], [M["values_twice"], P["chained"]]))
     S = SEP_FILTERS
     two = RULES["simple"] + "---\n" + RULES["multi_fields"]
     out.append(entry("separate-them-host", two, separate=[S["them"], S["host"]]))
@@ -347,12 +413,13 @@ def build_corpus(tier, rng):
     for i in range(n):
         rs = rng.sample(rk, rng.randint(1, 5))
         ps = rng.sample(pk, rng.randint(0, 3))
+        mp = [M[rng.choice(sorted(M))]] if rng.random() < 0.2 else []
         fs = rng.sample(fk, rng.choice([0, 0, 1, 2]))
         docs = "---\n".join([RULES[k] for k in rs] + [FILTERS[k] for k in fs])
         v = rng.choice([None, None, VALIDATORS["all"], VALIDATORS["some"]])
         sep = [S[k] for k in rng.sample(sorted(S), rng.choice([0, 0, 2, 3]))]
         out.append(entry(f"gen-{i}-" + "+".join(rs) + "|" + "+".join(ps) + "|" + "+".join(fs) + ("|sep%d" % len(sep) if sep else ""),
-                         docs, [P[k] for k in ps], validators=v, separate=sep))
+                         docs, [P[k] for k in ps] + mp, validators=v, separate=sep))
     return out
 
 
@@ -365,6 +432,8 @@ def entry_known(e):
     import yaml
     try:
         docs = [d for d in yaml.safe_load_all(e["docs"]) if isinstance(d, dict)]
+        for fdoc in e.get("filters_separate", []):     # filters applied in separate apply_filters calls
+            docs += [d for d in yaml.safe_load_all(fdoc) if isinstance(d, dict)]
     except Exception:
         return None
     has_filter = any("filter" in d for d in docs)
